@@ -746,6 +746,9 @@ class TableEngine:
                 op["again"] = {}
         if name in ("insert_column", "set_column", "append_column") and op.get("col") is not None and rng.chance(0.2, "touch_arg"):
             op["touch_arg"] = True
+        if name in ("set_cell", "insert_cell", "append_cell", "set_row", "insert_row", "append_row") and op.get("clone", True) and not op.get("again") \
+                and (op.get("cell") is not None or op.get("row") is not None) and rng.chance(0.15, "touch_arg2"):
+            op["touch_arg"] = True  # the caller goes on using ITS object after the call: the table holds a copy
         # coordinate forms for y / x arguments
         if "y" in op and name not in ("row_edit",) and self._form(rng) == "s":
             op["yform"] = "s"
@@ -764,7 +767,7 @@ class TableEngine:
             op["obs"]["target_row"] = ty
         if self.prop == "C10" and self.twin is not None and rng.chance(0.5, "on"):
             op["on"] = "twin"
-        if self.prop == "C10" and self.twin is not None and name in ("set_column", "insert_column", "append_column", "set_row", "insert_row", "append_row", "set_cell", "insert_cell", "append_cell", "set_row_cells", "set_cells") and op.get("clone", True) and rng.chance(0.3, "arg_to_other"):
+        if self.prop == "C10" and self.twin is not None and name in ("set_column", "insert_column", "append_column", "set_row", "insert_row", "append_row", "set_cell", "insert_cell", "append_cell", "set_row_cells", "set_cells") and op.get("clone", True) and rng.chance(0.45, "arg_to_other"):
             op["arg_to_other"] = True
         if name in ("live_row_rep", "live_cell_rep"):
             op["obs"]["level"] = "full"  # attribute a divergence to this very step
@@ -892,11 +895,17 @@ class TableEngine:
             return [Violation("C10", "clone-modified-original", name, [], None, "cloning changed the original")]
         if b.serialize() != a_ser:
             return [Violation("C10", "clone-differs-at-birth", name, [], None, "serialisation differs")]
+        try:
+            born = (b.y, b.width, ts.norm(b.get_values())) if what == "row" else (b.x, b.y, ts.norm(b.get_value()))
+            orig = (a.y, a.width, ts.norm(a.get_values())) if what == "row" else (a.x, a.y, ts.norm(a.get_value()))
+        except Exception as e:
+            # the table itself answers (the engine reads it at every step): an original or a clone that cannot be read is a finding
+            return [Violation("C10", "twin-unreadable", name, ["at_birth"], type(e).__name__, f"{type(e).__name__}: {e}")]
         if what == "row":
-            if (b.y, b.width, ts.norm(b.get_values())) != (a.y, a.width, ts.norm(a.get_values())):
+            if born != orig:
                 return [Violation("C10", "clone-differs-at-birth", name, [], None, f"row y/width/values: clone ({b.y},{b.width}) original ({a.y},{a.width})")]
         else:
-            if (b.x, b.y, ts.norm(b.get_value())) != (a.x, a.y, ts.norm(a.get_value())):
+            if born != orig:
                 return [Violation("C10", "clone-differs-at-birth", name, ["x0" if x == 0 else "x>0", "y0" if y == 0 else "y>0"], None, f"cell clone carries x={b.x} y={b.y}, original x={a.x} y={a.y}")]
         # mutate the clone: the original and the table must not notice
         mut = op.get("mut", "set_value")
